@@ -35,6 +35,10 @@ def parity_meas(qubits: List[Qubit], bases: str) -> Union[Future, RegFuture, int
         raise ValueError("Number of bases needs to be the number of qubits.")
     if not all([(B in "IXYZ") for B in bases]):
         raise ValueError("All elements of bases need to be in 'IXYZ'.")
+    # All qubits are checked before the first gate is queued:
+    # a call that is refused leaves nothing of its circuit behind
+    for qubit in qubits:
+        qubit.assert_active()
 
     num_qubits = len(qubits)
 
